@@ -136,6 +136,31 @@ ITEMS += [
     Item(id='add_assign_i64', source='src/nint.rs', frm='expanded', locator=M + 'impl AddAssign<i64> for NInt / fn add_assign',
          ret=None, ensures=[('exact_value', 'final(self)@ == old(self)@ + other')], props=P6),
     # DivAssign<u32> for NInt is not under contract: Verus rejects `/` on signed machine integers (`*a /= other as i64`)
+    Item(id='lazy_is_prime', source='src/nint.rs', frm='expanded', locator=M + 'impl NInt / fn lazy_is_prime',
+         ensures=[('decides_primality', 'r == is_prime(self@)')],
+         loops={1: dict(invariant=[('setup', 'self@ > 3 && self@ % 2 != 0 && self@ % 3 != 0 && s@ == int_sqrt(self@)'),
+                                   ('candidate_is_5_mod_6', 'f@ >= 5 && f@ % 6 == 5'),
+                                   ('no_divisor_below_candidate', 'forall|d: int| 2 <= d < f@ ==> #[trigger] (self@ % d) != 0')],
+                        decreases='int_sqrt(self@) + 8 - f@')},
+         hints=[
+             (r'let mut f = NInt::Small\(5\);',
+              'proof { assert forall|d: int| 2 <= d < 5 implies #[trigger] (self@ % d) != 0 by { if d == 4 && self@ % 4 == 0 { lemma_factor_of_divisor(self@, 4, 2); } } }', 'after'),
+             (r'loop \{', 'let ghost f0 = f@;', 'after'),
+             (r'loop \{\s*if f > s \{', 'proof { lemma_prime_from_small(self@, f@, s@); }', 'after'),
+             (r'f \+= 2;',
+              'proof { assert forall|d: int| 2 <= d < f@ implies #[trigger] (self@ % d) != 0 by {\n'
+              '    if d == f0 + 1 && self@ % d == 0 { lemma_factor_of_divisor(self@, d, 2); } } }', 'after'),
+             (r'f \+= 2;\s*if f > s \{', 'proof { lemma_prime_from_small(self@, f@, s@); }', 'after'),
+             (r'loop \{\s*if f > s \{ return true; \}\s*if \(self % &f\)\.is_zero\(\) \{',
+              'proof { assert(s@ * s@ >= 5 * s@) by(nonlinear_arith) requires s@ >= 5; assert(f@ < self@); assert(self@ % f@ == 0); }', 'after'),
+             (r'f \+= 2;\s*if f > s \{ return true; \}\s*if \(self % &f\)\.is_zero\(\) \{',
+              'proof { assert(s@ * s@ >= 5 * s@) by(nonlinear_arith) requires s@ >= 5; assert(f@ < self@); assert(self@ % f@ == 0); }', 'after'),
+             (r'f \+= 4;',
+              'proof { assert forall|d: int| 2 <= d < f@ implies #[trigger] (self@ % d) != 0 by {\n'
+              '    if self@ % d == 0 { if d == f0 + 3 { lemma_factor_of_divisor(self@, d, 2); } else if d == f0 + 4 { lemma_factor_of_divisor(self@, d, 3); }\n'
+              '      else if d == f0 + 5 { lemma_factor_of_divisor(self@, d, 2); } } } }', 'after'),
+         ],
+         props=P6),
     Item(id='factorial', source='src/nint.rs', frm='expanded', locator=M + 'impl NInt / fn factorial',
          ensures=[('value', 'r@ == int_fact_below(self@)')],
          loops={1: dict(invariant=[('partial_product', 'i@ >= 1 && (i@ <= self@ || i@ == 1) && ret@ == int_fact_below(i@)')],
@@ -196,4 +221,4 @@ impl ShrSpecImpl<usize> for NInt {
 } // verus!
 '''
 GENERATED_SPECS = {'nint_specimpls.rs': SPEC_IMPL_TEXT}
-SPECS = ['nint.rs', 'arith.rs', 'gen:nint_specimpls.rs']
+SPECS = ['nint.rs', 'arith.rs', 'prime.rs', 'gen:nint_specimpls.rs']
